@@ -25,6 +25,22 @@ claimed = {
    text="Seeded simulation, inside a testing/synctest fake-clock bubble, of Hash/HMAC/CTR DRBG objects (SM3, SHA-1/2; SM4, AES-128/192/256; NIST and GM modes; test level and, in the thorough tier, level 2) over histories of generate (sizes 0..max+1, with/without additional input), reseed (valid and below-minimum entropy) and clock advances placed just below / on / past the GM time limit, and of the DrbgPrng reader wrapper over read/clock histories with a scripted entropy source failing (error, EOF, short read, data+EOF) at chosen call indices. Output bytes are compared with SP 800-90A models; the model's own reseed bookkeeping decides exactly which generate call must be refused, refused calls must leave the canary-filled buffer and the state untouched, wrapper output must equal the chained model requests reseeded with exactly the bytes the source served, and every source fault must surface as an error. Sampling, not proof.",
    note="Trusted: harness/model/drbgm (SP 800-90A text, anchored on CAVP vectors at worker start); GM/T 0105 deviations taken from the package documentation (standard text unavailable offline). Input-length validation is not mirrored (error => no effect, acceptance => equals model). At elapsed == GM interval either verdict is accepted. No backwards clock jumps under synctest.",
    technique="deterministic simulation: seeded generate/reseed/clock histories under a simulated clock and a fault-injecting entropy source vs reference model with reseed bookkeeping, ddmin replay"),
+ "C06": dict(cat="exploration", design="DESIGN.md section 6 (C06)",
+   text="Seeded simulation of signer nodes holding long-lived SM2 key objects (keys from bytes incl. d = 1, n-2; keys built as structs with d in {n-1, n, n+1, 0}), verifier nodes and a transport in between: signatures are produced through all three signing entry points with a scripted nonce and user IDs of 0..8191 bytes and delivered untouched and altered (byte substitution, every byte position, truncation, trailing bytes inside/outside the SEQUENCE, r/s replaced by 0, n, n+r, 2^256-1, n-s, negative, non-minimal, cross-delivery to another message / user ID / key / signature, random (r,s)); every delivered byte string goes to both verification entry points and the verdicts must equal the math/big model's (strict DER, range, GB/T 32918.2 equation) - this decides completeness and soundness on the delivered set; signing repeatedly with a scalar of n-1 or above must return an error every time. Three field-arithmetic tiers compared per run. Sampling, not proof.",
+   note="Trusted: harness/model/sm2m (math/big affine arithmetic, hand-written strict DER reader; anchored on GB/T 32918.5 examples at worker start), SM3 model. Empty user ID = default user ID.",
+   technique="deterministic simulation: key-object histories with scripted nonce reader and a faulty signature transport vs reference acceptance model, ddmin replay"),
+ "C07": dict(cat="exploration", design="DESIGN.md section 6 (C07)",
+   text="Seeded simulation of encryptor, relay and decryptor nodes for SM2 encryption: the ephemeral scalar comes from the scripted reader, so every ciphertext must equal the GB/T 32918.4 output of the model for that scalar in all five layouts (C1C3C2/C1C2C3 with compressed or uncompressed C1, ASN.1); constructive generators produce all-zero C2 (message := mask) and force the A5 retry (first scalar with an all-zero mask); relays apply chains of the layout converters; the transport alters ciphertexts (byte alteration, every byte position, truncation, C1 replaced by an off-curve point / (0,0) / x >= p / another ciphertext's C1, wrong private key); for every delivered byte string the library's result (message or error) must equal the model's decryption. Four tiers compared per run. Sampling, not proof.",
+   note="Trusted: harness/model/sm2m and sm3m. An altered byte string that decrypts to the original message (equivalent re-encoding) is tolerated; any other plaintext for a model-rejected input is a violation.",
+   technique="deterministic simulation: scripted ephemeral-scalar reader, relay/converter chains and a faulty ciphertext transport vs reference model, ddmin replay"),
+ "C08": dict(cat="exploration", design="DESIGN.md section 6 (C08)",
+   text="Seeded simulation of initiator and responder nodes running the real three-message SM2 key agreement, each with either the sm2.KeyExchange object or the byte-oriented ecdh functions (SM2MQV, SM2SharedKey, SM2ZA), messages serialised to bytes on a simulated transport with faults (byte corruption, substitution of R by another valid / off-curve / (0,0) / out-of-range point, corrupted confirmation, replay from the previous session, drop followed by a restarted session). The model is an executable GB/T 32918.3 party with exact integers: verdict (error or continue), R, S values and the key of every step are compared with it on the bytes actually delivered; fault-free and restarted sessions must complete in three deliveries with equal keys; plain ECDH is checked in both directions against the model. Sampling, not proof.",
+   note="Trusted: harness/model/sm2m, sm3m. Confirmation values of an ecdh-function party are computed by the harness from the library's V (no confirmation API in ecdh). Without confirmation only per-step agreement with the model party is required.",
+   technique="deterministic simulation: two-party protocol on a simulated faulty transport with scripted ephemeral scalars vs an executable reference party, bounded liveness after faults stop, ddmin replay"),
+ "C12": dict(cat="fault_enumeration", design="DESIGN.md section 6 (C12)",
+   text="For SM2 keygen/sign/encrypt/key-exchange (init and respond), ECDH keygen and SM9 master keygen/sign/wrap/encrypt/key-exchange, each run is one operation instance on a scripted reader (adversarial 32-byte blocks 0, 1, n-2, n-1, n, n+1, 2^256-1, random in seeded order; read chunks of 1..32 bytes; the hidden pre-read decided through the verif hook). Fidelity: the scalar recovered from the output (k = s(1+d)+rd, C1 = [k]G, R = [r]G; S = [r-h]dsA and e(C,de) = e(Ppub,P2)^r for SM9) must be the first in-range block and exactly 32*(rejected+1) (+ pre-read) bytes must be consumed. Failure: the operation is re-executed once per (read index of the fault-free execution) x {error, EOF, partial+error, partial+EOF} - an exhaustive enumeration per instance (evenly sampled above 48 reads) - and must return an error and empty outputs without panicking; afterwards the same objects must work again with fidelity.",
+   note="Trusted: harness/model/sm2m for SM2 recovery; for SM9 the group arithmetic of the library (through the verif-tagged re-export) is trusted for the comparison, the sampling code is what is checked. Faults are sticky (a failed source stays failed). Retry branches other than range rejection and the SM2 A5 zero-mask are not driven.",
+   technique="deterministic simulation: scripted random source with exhaustive per-instance enumeration of (read index x fault kind), scalar-recovery oracle"),
  "C19": dict(cat="exploration", design="DESIGN.md section 6 (C19)",
    text="Seeded simulation of histories on one long-lived MAC object for all eight GB/T 15852.1 constructions over SM4, AES and DES/3DES: several messages in sequence, caller slices with spare capacity, and for CMAC simulator-chosen Write splits, Sum interleavings, reset and abandon-and-reuse; every tag is compared with independent models (truncation and exact length included), the caller's bytes are canary-checked, and full-size tags of messages differing in one bit of the last block must not collide. Three nodes (asm SM4, generic SM4, purego) with cross-node trace equality. Sampling, not proof.",
    note="Trusted: harness/model/macm (anchored on RFC 4493, SP 800-38B TDEA, GB/T 15852.1 appendix vectors at worker start), model SM4, Go's crypto/aes and crypto/des as block ciphers on both sides. LMAC only with key length = block length; CBCR on the empty message only for history independence (unsettled offline). Known finding cbcr-left-shift is reported, not repaired.",
